@@ -357,3 +357,36 @@ func VC13_order() {
 		}
 	}
 }
+
+// VC13_versions: the Version partition when configured versions compare equal as semantic
+// versions although they are different strings (invalid semver such as "devel"/"tip", or
+// "v1.2" vs "v1.2.0"): the order of data points must not depend on map iteration order.
+func VC13_versions() {
+	pool := [][2]string{{"tip", "devel"}, {"v1.2", "v1.2.0"}, {"v1.0.0+a", "v1.0.0+b"}}
+	vs := pool[vrt.Choose(len(pool))]
+	var reports []telemetry.Report
+	for i := 0; i < 2; i++ {
+		x := math.Float64frombits(vrt.U64())
+		vrt.Assume(!math.IsNaN(x) && !math.IsInf(x, 0))
+		reports = append(reports, telemetry.Report{Week: "2024-01-07", X: x, Programs: []*telemetry.ProgramReport{{
+			Program: c13programs[0], Version: vs[i], GOOS: "linux", GOARCH: "amd64", GoVersion: "go1.21.0", Counters: map[string]int64{}}}})
+	}
+	d := group(reports)
+	opts := partitionOptions{ignoreEmptyBuckets: true, compareBuckets: compareSemver}
+	buckets := []bucketName{bucketName(vs[0]), bucketName(vs[1])}
+	a := d.partition(programName(c13programs[0]), versionCounter, buckets, opts)
+	vrt.MapOrderSymbolic(true)
+	b := d.partition(programName(c13programs[0]), versionCounter, buckets, opts)
+	vrt.MapOrderSymbolic(false)
+	if !vrt.IsSymbolic() {
+		// natively the runtime randomises map iteration: recompute until an order differs
+		for i := 0; i < 64 && b != nil && a != nil && len(a.Data) == 2 && len(b.Data) == 2 && *a.Data[0] == *b.Data[0]; i++ {
+			b = d.partition(programName(c13programs[0]), versionCounter, buckets, opts)
+		}
+	}
+	vrt.Assert(a != nil && b != nil && len(a.Data) == 2 && len(b.Data) == 2, "both versions are charted")
+	if a == nil || b == nil || len(a.Data) != 2 || len(b.Data) != 2 {
+		return
+	}
+	vrt.Assert(*a.Data[0] == *b.Data[0] && *a.Data[1] == *b.Data[1], "data points of semver-equal versions keep one order under any map iteration order")
+}
